@@ -133,3 +133,26 @@ check(
     'Areas beyond the bound are not covered.',
     'DESIGN.md 3/C19',
 )
+check(
+    'C13',
+    'exhaustive exploration of each reset function\'s random-choice tree (scripted ChoiceRng, complete or deviation-bounded) over a parameter grid, with a well-formedness oracle; numpy conformance replays',
+    'For the 8 built-in reset functions and a parameter grid (shapes from 1x1 to 9x9 / 11x11 square and not, layouts, '
+    'obstacle and river counts incl. negative and too many, colour sets with and without NONE, beacon/exit counts, '
+    'flags, plus all shipped points) every random outcome is executed when the point has few enough, otherwise every '
+    'outcome with at most 2 non-default draws: the result must be a well-formed initial state (shape, wall boundary, '
+    'agent placement, inventory per function) or ValueError - any other exception or a malformed state is a '
+    'violation; shipped points must succeed. Real numpy seeds are replayed through the scripted generator.',
+    'Which unshipped points are valid is not decided by the oracle. Bounds reported in evidence.',
+    'DESIGN.md 3/C13',
+)
+check(
+    'C14',
+    'exhaustive enumeration of initial states (reset choice tree) followed by explicit-state search of the real functional_step graph with backward closure from the goal; witness replay through the stateful interface',
+    'Every explored initial state of every valid parameter point (shapes 3x3..7x7 / 9x9 and all shipped points) is '
+    'decided winnable by searching all histories of the real step function (random dynamics outcomes as branches, '
+    'terminal states not expanded), sharing one explored graph per static grid; one witness per grid is replayed '
+    'through env.reset/step. Unwinnable memory_rooms states whose goal is reachable once the other exits are treated '
+    'as floor are the recorded known finding F7; anything else is a violation.',
+    'Dynamics per reset function = chain and termination of the shipped configuration using it; <=2 obstacles.',
+    'DESIGN.md 3/C14',
+)
